@@ -37,10 +37,10 @@ for sid in ids:
         for cand in cands:
             ap = subprocess.run(["git", "-C", wt, "apply", "--3way", cand], capture_output=True, text=True)
             if ap.returncode != 0:
-                subprocess.run(["git", "-C", wt, "checkout", "--", "."], capture_output=True)
+                subprocess.run(["git", "-C", wt, "reset", "--hard", "-q"], capture_output=True)
                 ap = subprocess.run(["git", "-C", wt, "apply", cand], capture_output=True, text=True)
             if ap.returncode == 0: break
-            subprocess.run(["git", "-C", wt, "checkout", "--", "."], capture_output=True)
+            subprocess.run(["git", "-C", wt, "reset", "--hard", "-q"], capture_output=True)
         if ap.returncode != 0:
             results[sid] = {"property": meta["property"], "applied": False, "detail": ap.stderr[-300:]}
             save_one(sid, results[sid])
